@@ -96,10 +96,10 @@ IMMUTABLE_CTORS = {'datetime', 'date', 'time', 'timedelta', 'timezone', 'Decimal
                    'staticmethod', 'classmethod', 'MappingProxyType', 'auto'}
 SAFE_DECORATORS = {'property', 'staticmethod', 'classmethod', 'abstractmethod', 'abstractproperty', 'dispatch', 'overload',
                    'abstractstaticmethod', 'abstractclassmethod', 'wraps', 'total_ordering', 'dataclass', 'final',
-                   'unique', 'runtime_checkable'}
+                   'unique', 'runtime_checkable', 'contextmanager', 'override', 'deprecated', 'no_type_check'}
 MEMO_DECORATORS = {'lru_cache', 'cache', 'cached_property', 'memoize', 'memoized', 'memo', 'singledispatch',
                    'singledispatchmethod', 'cachedmethod', 'cached'}
-DYNAMIC_CALLS = {'exec', 'eval', 'globals', 'locals', '__import__', 'compile'}
+DYNAMIC_CALLS = {'exec', 'eval', 'globals', 'locals', '__import__'}
 
 DEBUG = False
 
@@ -131,7 +131,7 @@ class Unit:
     __slots__ = ('mod', 'cls', 'node', 'name', 'qual', 'pos', 'kwonly', 'vararg', 'kwarg', 'is_static', 'is_classmethod',
                  'recv', 'formals', 'kind', 'decos', 'locals', 'gdecl', 'binds', 'stores', 'calls', 'returns', 'augs',
                  'env', 'mut', 'ret', 'oneshot', 'oneshot_ret', 'memo', 'lambdas', 'all_params', 'trivial', 'dels',
-                 'ctx_deco', 'in_scope', 'defaults', 'limports')
+                 'ctx_deco', 'in_scope', 'defaults', 'limports', 'pos', 'bind_pos', 'loops')
 
     def __init__(self, mod, cls, node):
         self.mod, self.cls, self.node = mod, cls, node
@@ -180,6 +180,9 @@ class Unit:
         self.trivial = False
         self.in_scope = True
         self.limports = {}
+        self.pos = {}         # id(stmt | call) -> (line, block path)
+        self.bind_pos = []    # parallel to binds
+        self.loops = set()    # ids of loop statements / comprehensions
         self.defaults = {}
         pos = a.posonlyargs + a.args
         for p, d in zip(pos[len(pos) - len(a.defaults):], a.defaults):
@@ -204,10 +207,24 @@ class _Collect(ast.NodeVisitor):
 
     def __init__(self, u):
         self.u = u
+        self.stack = []       # block path: (id(owner statement), field) entries; ('deferred',) inside nested defs / lambdas
 
     def run(self):
         for st in self.u.node.body:
             self.visit(st)
+
+    def here(self, n):
+        return (getattr(n, 'lineno', 0), tuple(self.stack))
+
+    def _bind(self, name, value, mode, n):
+        self.u.binds.append((name, value, mode))
+        self.u.bind_pos.append(self.here(n))
+
+    def _block(self, owner, field, stmts):
+        self.stack.append((id(owner), field))
+        for st in stmts:
+            self.visit(st)
+        self.stack.pop()
 
     # ---- scopes
     def visit_FunctionDef(self, n):
@@ -216,14 +233,16 @@ class _Collect(ast.NodeVisitor):
         a = n.args
         for x in a.posonlyargs + a.args + a.kwonlyargs:
             u.locals.add(x.arg)
-            u.binds.append((x.arg, None, 'fresh'))
+            self._bind(x.arg, None, 'fresh', n)
         for x in (a.vararg, a.kwarg):
             if x is not None:
                 u.locals.add(x.arg)
         for d in a.defaults + [d for d in a.kw_defaults if d is not None]:
             self.visit(d)
+        self.stack.append(('deferred',))
         for st in n.body:
             self.visit(st)
+        self.stack.pop()
 
     visit_AsyncFunctionDef = visit_FunctionDef
 
@@ -239,7 +258,9 @@ class _Collect(ast.NodeVisitor):
             if x is not None:
                 self.u.locals.add(x.arg)
         self.u.lambdas.append(n)
+        self.stack.append(('deferred',))
         self.visit(n.body)
+        self.stack.pop()
 
     def visit_Global(self, n):
         self.u.gdecl.update(n.names)
@@ -269,7 +290,7 @@ class _Collect(ast.NodeVisitor):
         u = self.u
         if isinstance(t, ast.Name):
             u.locals.add(t.id)
-            u.binds.append((t.id, value, mode))
+            self._bind(t.id, value, mode, stmt)
         elif isinstance(t, (ast.Tuple, ast.List)):
             for e in t.elts:
                 self._target(e, value, 'elem' if mode == 'assign' else mode, stmt)
@@ -277,7 +298,40 @@ class _Collect(ast.NodeVisitor):
             self._target(t.value, value, mode, stmt)
         elif isinstance(t, (ast.Attribute, ast.Subscript)):
             u.stores.append((t, stmt, 'store', value))
+            u.pos[id(stmt)] = self.here(stmt)
             self.visit(t)
+
+    def visit_If(self, n):
+        self.visit(n.test)
+        self._block(n, 'body', n.body)
+        self._block(n, 'orelse', n.orelse)
+
+    def visit_While(self, n):
+        self.u.loops.add(id(n))
+        self.stack.append((id(n), 'loop'))
+        self.visit(n.test)
+        self._block(n, 'body', n.body)
+        self.stack.pop()
+        self._block(n, 'orelse', n.orelse)
+
+    def visit_Try(self, n):
+        self._block(n, 'body', n.body)
+        for h in n.handlers:
+            self.stack.append((id(h), 'handler'))
+            self.visit(h)
+            self.stack.pop()
+        self._block(n, 'orelse', n.orelse)
+        self._block(n, 'finalbody', n.finalbody)
+
+    visit_TryStar = visit_Try
+
+    def _comp(self, n):
+        self.u.loops.add(id(n))
+        self.stack.append((id(n), 'loop'))
+        self.generic_visit(n)
+        self.stack.pop()
+
+    visit_ListComp = visit_SetComp = visit_DictComp = visit_GeneratorExp = _comp
 
     def visit_Assign(self, n):
         self.visit(n.value)
@@ -294,6 +348,7 @@ class _Collect(ast.NodeVisitor):
     def visit_AugAssign(self, n):
         self.visit(n.value)
         t = n.target
+        self.u.pos[id(n)] = self.here(n)
         if isinstance(t, ast.Name):
             self.u.locals.add(t.id)
             self.u.augs.append((t.id, n, n.value))
@@ -305,13 +360,17 @@ class _Collect(ast.NodeVisitor):
         for t in n.targets:
             if isinstance(t, (ast.Attribute, ast.Subscript)):
                 self.u.stores.append((t, n, 'del', None))
+                self.u.pos[id(n)] = self.here(n)
                 self.visit(t)
 
     def visit_For(self, n):
         self.visit(n.iter)
+        self.u.loops.add(id(n))
+        self.stack.append((id(n), 'loop'))
         self._target(n.target, n.iter, 'iter', n)
-        for st in n.body + n.orelse:
-            self.visit(st)
+        self._block(n, 'body', n.body)
+        self.stack.pop()
+        self._block(n, 'orelse', n.orelse)
 
     visit_AsyncFor = visit_For
 
@@ -326,8 +385,7 @@ class _Collect(ast.NodeVisitor):
             self.visit(it.context_expr)
             if it.optional_vars is not None:
                 self._target(it.optional_vars, None, 'fresh', n)
-        for st in n.body:
-            self.visit(st)
+        self._block(n, 'body', n.body)
 
     visit_AsyncWith = visit_With
 
@@ -356,10 +414,11 @@ class _Collect(ast.NodeVisitor):
 
     def visit_Call(self, n):
         self.u.calls.append(n)
+        self.u.pos[id(n)] = self.here(n)
         lams = [a for a in list(n.args) + [k.value for k in n.keywords] if isinstance(a, ast.Lambda)]
         for lam in lams:
             for x in lam.args.posonlyargs + lam.args.args:
-                self.u.binds.append((x.arg, n, ('lambda', lam)))
+                self._bind(x.arg, n, ('lambda', lam), n)
         self.generic_visit(n)
 
 
@@ -403,6 +462,8 @@ class Analysis:
         self.field_g = {}             # (class qual, attr) -> set of g roots assigned to self.attr
         self.esc_names = set()
         self.props = {}
+        self._at = None
+        self._at_unit = None
         self.esc_units = []
         self._build_units()
 
@@ -604,13 +665,68 @@ class Analysis:
             self._gcache[k] = r
         return r
 
+    # ---- which bindings of a local reach a site (straight-line kill; conservative everywhere else)
+    def at(self, u, node):
+        """evaluate the following R() calls at the position of `node` in u (None: flow-insensitively)"""
+        self._at = u.pos.get(id(node)) if node is not None else None
+        self._at_unit = u if self._at is not None else None
+
+    def reaching_roots(self, u, name, pos):
+        line, stack = pos
+        if ('deferred',) in stack:
+            return None                 # code of a nested function / lambda runs later: every binding may reach it
+        idxs = [i for i, b in enumerate(u.binds) if b[0] == name]
+        if not idxs:
+            return None
+        dom = None
+        for i in idxs:
+            bl, bs = u.bind_pos[i]
+            if ('deferred',) in bs or isinstance(u.binds[i][2], tuple):
+                return None
+            if bl < line and len(bs) <= len(stack) and stack[:len(bs)] == bs:
+                if dom is None or bl >= u.bind_pos[dom][0]:
+                    dom = i
+        if dom is None:
+            return None
+        dl, ds = u.bind_pos[dom]
+        if sum(1 for i in idxs if u.bind_pos[i][0] == dl) > 1:
+            return None                 # several bindings on the dominating line (tuple targets, chained assignment)
+        loops_after = [x for x in stack[len(ds):] if x[1] == 'loop']
+        reach = [dom]
+        for i in idxs:
+            if i == dom:
+                continue
+            bl, bs = u.bind_pos[i]
+            if dl < bl < line:
+                reach.append(i)         # a later binding in a branch that does not dominate the site
+            elif bl >= line and any(x in bs for x in loops_after):
+                reach.append(i)         # carried round a loop that starts after the dominating binding
+            elif bl == line:
+                reach.append(i)
+        saved = (self._at, self._at_unit)
+        self._at = self._at_unit = None
+        out = EMPTY
+        for i in reach:
+            nm, value, mode = u.binds[i]
+            out = out | self._bind_roots(u, value, mode)
+        self._at, self._at_unit = saved
+        if name in u.all_params and dom is None:
+            out = out | u.env.get(name, EMPTY)
+        return out
+
     # ---- roots of an expression
     def R(self, u, e):
         if isinstance(e, ast.Name):
             if u.is_local(e.id):
+                if self._at is not None and self._at_unit is u:
+                    r = self.reaching_roots(u, e.id, self._at)
+                    if r is not None:
+                        return r
                 return u.env.get(e.id, EMPTY)
             return self.global_root(u.mod, e.id, u)
         if isinstance(e, ast.Attribute):
+            if e.attr == '__class__':
+                return frozenset(['g:type(...)'])
             sc = self.static_class(u, e.value)
             if sc is not None:
                 return self.class_attr_root(sc, e.attr)
@@ -991,14 +1107,18 @@ class Analysis:
                 if r == SELF or r.startswith('p:'):
                     mut.add(r)
         for t, stmt, kind, value in u.stores:
+            self.at(u, stmt)
             eff(self.R(u, t.value))
         for name, stmt, value in u.augs:
             if name in u.gdecl:
                 continue
             if self._container_display(value):
-                eff(u.env.get(name, EMPTY))
+                self.at(u, stmt)
+                eff(self.R(u, ast.Name(id=name, ctx=ast.Load())))
         for c in u.calls:
+            self.at(u, c)
             self._call_effects(u, c, eff)
+        self.at(u, None)
         ret = set()
         for e in u.returns:
             ret |= self.R(u, e)
@@ -1022,7 +1142,8 @@ class Analysis:
             m = f.attr
             recv = f.value
             is_self = isinstance(recv, ast.Name) and recv.id == u.recv and u.cls is not None
-            if m in MUTATORS:
+            if m in MUTATORS and not (isinstance(recv, ast.Name) and recv.id in ('object', 'dict', 'list', 'type')
+                                      and not u.is_local(recv.id)):
                 cands = self.candidates(u, c)[0] if is_self else None
                 if not (is_self and cands):
                     r = self.R(u, recv)
@@ -1030,6 +1151,13 @@ class Analysis:
                         eff(r)
                         if record is not None:
                             record('mutator', r, c, recv, m, None)
+            elif m in ('__setattr__', '__setitem__', '__delattr__', '__delitem__') and len(c.args) >= 2 \
+                    and isinstance(recv, ast.Name) and recv.id in ('object', 'dict', 'list', 'type'):
+                r = self.R(u, c.args[0])        # object.__setattr__(obj, name, value)
+                if r:
+                    eff(r)
+                    if record is not None:
+                        record('store', r, c, c.args[0], m, None)
             elif m in EXTERNAL_ARG_MUT and c.args:
                 r = self.R(u, c.args[0])
                 if r:
@@ -1166,24 +1294,29 @@ class Analysis:
 
         def record(kind, roots, node, expr, name, formal):
             for r in sorted(roots):
-                out.append((kind, r, node, self.nf(u, expr), name, formal))
+                out.append((kind, r, node, self.nf(u, expr), name, formal, expr))
         for t, stmt, kind, value in u.stores:
+            self.at(u, stmt)
             r = self.R(u, t.value)
             if r:
                 k = {'store': 'store', 'aug': 'augmented store', 'del': 'del'}[kind]
                 for x in sorted(r):
-                    out.append((k, x, stmt, self.nf(u, t), None, None))
+                    out.append((k, x, stmt, self.nf(u, t), None, None, t))
         for name, stmt, value in u.augs:
             if name in u.gdecl:
-                out.append(('global rebinding', 'g:%s.%s' % (u.mod.name, name), stmt, name, None, None))
+                out.append(('global rebinding', 'g:%s.%s' % (u.mod.name, name), stmt, name, None, None, None))
             elif self._container_display(value):
-                for x in sorted(u.env.get(name, EMPTY)):
-                    out.append(('augmented store', x, stmt, '<local>', None, None))
+                self.at(u, stmt)
+                for x in sorted(self.R(u, ast.Name(id=name, ctx=ast.Load()))):
+                    out.append(('augmented store', x, stmt, '<local>', None, None, None))
+        self.at(u, None)
         for name, value, mode in u.binds:
             if name in u.gdecl and mode in ('assign', 'elem', 'iter'):
-                out.append(('global rebinding', 'g:%s.%s' % (u.mod.name, name), value, name, None, None))
+                out.append(('global rebinding', 'g:%s.%s' % (u.mod.name, name), value, name, None, None, None))
         for c in u.calls:
+            self.at(u, c)
             self._call_effects(u, c, lambda r: None, record)
+        self.at(u, None)
         return out
 
     # ---- who may call: reverse call sites and the build-time-only predicate
@@ -1202,6 +1335,13 @@ class Analysis:
         for (k, n, targets) in self.esc_refs:
             for h in targets:
                 rev.setdefault(id(h), []).append((k, n, 'escapes', 0, n))
+        # witnesses are taken from the first offending call site: prefer callers that live near the callee
+        for u in self.units:
+            lst = rev.get(id(u))
+            if lst and len(lst) > 1:
+                pkg = u.mod.name.split('.')[0]
+                lst.sort(key=lambda s_: (s_[0] is None or s_[0].mod.name.split('.')[0] != pkg,
+                                         s_[0] is None or s_[0].mod is not u.mod))
         self.rev = rev
 
     def all_call_sites(self, h):
@@ -1209,6 +1349,13 @@ class Analysis:
 
     def actual_roots(self, k, c, how, shift, recv, h, formal):
         """roots (in caller k) of the expression bound to `formal` of callee h at call c; None = a freshly built object"""
+        self.at(k, c) if k is not None else self.at(None, None) if False else None
+        try:
+            return self._actual_roots(k, c, how, shift, recv, h, formal)
+        finally:
+            self._at = self._at_unit = None
+
+    def _actual_roots(self, k, c, how, shift, recv, h, formal):
         if how == 'escapes':
             # a bound method stored as a value is called later, at an unknown time: its receiver counts as shared
             if formal == SELF and k is not None and isinstance(recv, ast.Attribute):
@@ -1350,6 +1497,60 @@ class Analysis:
         else:
             raise AnalysisError('who-may-call predicate did not stabilise (grounding)')
         self.confined = state
+
+    def solve_primary(self):
+        """(h, p) is *primary* when h writes through its parameter p itself, or hands p on - as a plain argument - to a
+        callee for which that formal is primary.  Effects that reach a parameter only because some callee writes *its own
+        receiver* are not primary: they are judged once, at that callee's write site."""
+        prim = set()
+        todo = []
+        for u in self.units:
+            for f in u.mut:
+                if f != SELF and _direct_param_effect(self, u, f[2:]):
+                    prim.add((id(u), f))
+                    todo.append((u, f))
+        while todo:
+            h, f = todo.pop()
+            for (k, c, how, shift, recv) in self.rev.get(id(h), []):
+                if k is None or how == 'escapes':
+                    continue
+                roots = self.actual_roots(k, c, how, shift, recv, h, f)
+                for t in roots or ():
+                    if t.startswith('p:') and (id(k), t) not in prim and t in k.mut:
+                        prim.add((id(k), t))
+                        todo.append((k, t))
+        self.primary = prim
+
+    def binds_primary(self, u, call, expr):
+        """does some candidate callee of `call` have a primary effect on the formal that `expr` is bound to?"""
+        cands, shift, recv, how = self.candidates(u, call)
+        pools = [(cands, shift)]
+        for ref, targets in self.applied.get(id(call), ()):
+            pools.append((targets, None))
+        for pool, sh in pools:
+            for h in pool:
+                for f in h.mut:
+                    if f == SELF or (id(h), f) not in self.primary:
+                        continue
+                    p = f[2:]
+                    if sh is None:
+                        if h.formals and p == h.formals[0]:
+                            return True
+                        continue
+                    if p in h.formals:
+                        i = h.formals.index(p) + sh
+                        if i < len(call.args) and (call.args[i] is expr or (isinstance(call.args[i], ast.Starred)
+                                                                            and call.args[i].value is expr)):
+                            return True
+                    elif p == h.vararg:
+                        if any(a is expr or (isinstance(a, ast.Starred) and a.value is expr)
+                               for a in call.args[len(h.formals) + sh:]):
+                            return True
+                    if any(k.value is expr and (k.arg == p or k.arg is None) for k in call.keywords):
+                        return True
+                    if any(isinstance(a, ast.Starred) and a.value is expr for a in call.args):
+                        return True
+        return False
 
     def terminals(self, u, formal=SELF, limit=6):
         """where the call chains that reach (u, formal) start: constructors and freshly built objects"""
@@ -1498,11 +1699,9 @@ def check_dynamic(idx, scope):
             where = '%s:%d' % (m.rel, getattr(n, 'lineno', 0))
             if isinstance(n, ast.Call) and isinstance(n.func, ast.Name):
                 f = n.func.id
-                if f in DYNAMIC_CALLS and not (f == 'compile' and False):
-                    if f == 'compile':
-                        continue
+                if f in DYNAMIC_CALLS:
                     raise AnalysisError('%s: %s() - reflective code is not understood by the effect analysis' % (where, f))
-                if f in ('getattr', 'setattr', 'delattr', 'hasattr') and len(n.args) >= 2 and not is_const_str(n.args[1]):
+                if f in ('getattr', 'setattr', 'delattr') and len(n.args) >= 2 and not is_const_str(n.args[1]):
                     raise AnalysisError('%s: %s() with a computed attribute name - name-based call resolution is unsound here'
                                         % (where, f))
             elif isinstance(n, ast.Attribute) and n.attr in ('__dict__', '__globals__', '__code__', '__bases__', '__mro__',
@@ -1566,13 +1765,14 @@ def rule_shared(chk, A):
                 n_param += 1
                 chk.ok(R_PARAM, u.path, u.qual, 'parameter %s is only ever bound to per-call objects' % f[2:], u.node.lineno)
         seen_setter = False
-        for kind, root, node, path, name, formal in A.sites(u):
+        for kind, root, node, path, name, formal, expr in A.sites(u):
             if root.startswith('p:'):
                 continue
             line = getattr(node, 'lineno', u.node.lineno)
             if root == SELF:
-                if kind == 'call' and path == 'self' and formal == 'self':
-                    continue            # self.m(): the effect is judged at m's own site, this call is part of its chain
+                if kind == 'call' and (formal == 'self' or not A.binds_primary(u, node, expr)):
+                    continue            # x.m() where m writes its own receiver (directly or through what it was handed):
+                    #                     judged at m's own write sites, whose who-may-call chain includes this call
                 if u.kind in ('setter', 'protocol'):
                     if not seen_setter:
                         seen_setter = True
@@ -1597,6 +1797,12 @@ def rule_shared(chk, A):
                             'shared state is written on the recognise path: %s in %s, reachable outside construction (%s)'
                             % (what, u.qual, A.why.get((id(u), SELF), 'not build-time only')), line)
             else:
+                if kind == 'call' and formal == 'self' and any(
+                        SELF in h.mut and not A.confined.get((id(h), SELF), False) and h.kind == 'plain'
+                        for h in A.candidates(u, node)[0]):
+                    continue            # reported at the callee's own write site
+                if kind == 'call' and formal != 'self' and not A.binds_primary(u, node, expr):
+                    continue
                 what = '%s %s' % (kind, path) if kind != 'call' else 'passes %s to %s() which mutates its %s' % (path, name, formal)
                 if kind == 'mutator':
                     what = '%s.%s()' % (path, name)
@@ -1636,6 +1842,9 @@ def rule_cache(chk, A):
         for t, stmt, kind, value in u.stores:
             if A.R(u, t.value) & roots:
                 writers.append((u, t, stmt, kind, value))
+        for kind, root, node, path, name, formal, expr in A.sites(u):
+            if root in roots and kind in ('mutator', 'call', 'global rebinding'):
+                writers.append((u, expr, node, '%s %s%s' % (kind, path, '.%s()' % name if name else ''), None))
         for n in ast.walk(u.node):
             if isinstance(n, ast.Call) and isinstance(n.func, ast.Attribute) and n.func.attr in ('get', '__getitem__') \
                     and A.R(u, n.func.value) & roots and n.args:
@@ -1669,7 +1878,8 @@ def rule_cache(chk, A):
     for u, t, stmt, kind, value in writers:
         if kind != 'store' or not isinstance(t, ast.Subscript):
             chk.bad(R_CACHE, m.path, u.qual, '%s of the cache' % kind,
-                    'the cache is modified by something other than `cache[key] = model`', stmt.lineno)
+                    'the cache is modified by something other than `cache[key] = model` (%s in %s): cached models can '
+                    'disappear or be replaced depending on what ran before' % (kind, u.qual), stmt.lineno)
             continue
         used, err = key_params(u, t.slice)
         val_params = {n.id for n in ast.walk(value) if isinstance(n, ast.Name)} & set(u.formals) if value is not None else set()
@@ -1776,14 +1986,14 @@ def dotted(e, ext, shadow):
 
 
 def is_ambient_path(d):
-    return d in AMBIENT_EXACT or d.startswith(AMBIENT_PREFIX)
+    return d in AMBIENT_EXACT or d.startswith(AMBIENT_PREFIX) or d.startswith(('os.environ.', 'sys.argv.'))
 
 
 def ambient_sites(A, m):
     """[(node, description, enclosing FunctionDef | None, parents)] for every ambient read in module m"""
     if not hasattr(A.idx, 'top_packages'):
         A.idx.top_packages = {x.name.split('.')[0] for x in A.idx.mods.values()}
-    ext = external_names(A, m)
+    ext_module = external_names(A, m)
     parents = {}
     out = []
 
@@ -1810,6 +2020,17 @@ def ambient_sites(A, m):
         shadow = set()
         if u is not None:
             shadow = {x for x in u.locals if x not in u.limports}
+            local_ext = {}
+            for nm, imp in u.limports.items():
+                modname = imp[1]
+                if modname and modname not in A.idx.mods and modname.split('.')[0] not in A.idx.top_packages:
+                    local_ext[nm] = modname if imp[0] == 'mod' else modname + '.' + imp[2]
+            if local_ext:
+                ext = dict(ext_module, **local_ext)
+            else:
+                ext = ext_module
+        else:
+            ext = ext_module
         if isinstance(n, ast.Call):
             d = dotted(n.func, ext, shadow)
             if d and is_ambient_path(d):
@@ -2457,7 +2678,7 @@ def rule_class_mutable(chk, A):
                     if kind == 'store' and isinstance(t, ast.Attribute) and isinstance(t.value, ast.Name) \
                             and t.value.id == cu.recv:
                         assigned.add(t.attr)
-        for kind, root, node, path, name, formal in A.sites(u):
+        for kind, root, node, path, name, formal, expr in A.sites(u):
             if root != SELF:
                 continue
             x = mutated_attr(kind, path)
@@ -2629,6 +2850,128 @@ class CtlModel(Model):
 }
 
 
+# behaviour-preserving twins of the violating constructs above: the same rules must stay silent on these
+CLEAN_SOURCES = {
+    'recognizers_text.model': """
+from collections import namedtuple
+CacheKey = namedtuple('CacheKey', ['model_type', 'culture', 'options'])
+class Model:
+    def parse(self, query):
+        raise NotImplementedError
+class ModelFactory:
+    __cache = dict()
+    def __init__(self):
+        self.model_factories = dict()
+    def get_model_from_cache(self, model_type, culture, options):
+        key = CacheKey(model_type=model_type, culture=culture, options=options)
+        return ModelFactory.__cache.get(key, None)
+    def register_model_in_cache(self, model_type, culture, options, model):
+        key = CacheKey(model_type=model_type, culture=culture, options=options)
+        ModelFactory.__cache[key] = model
+    def register_model(self, model_type, culture, ctor):
+        self.model_factories[(model_type, culture)] = ctor
+    def try_get_model(self, model_type, culture, options):
+        hit = self.get_model_from_cache(model_type, culture, options)
+        if hit is not None:
+            return hit
+        model = self.model_factories[(model_type, culture)](options)
+        self.register_model_in_cache(model_type, culture, options, model)
+        return model
+""",
+    'recognizers_text.recognizer': """
+from recognizers_text.model import ModelFactory
+class Recognizer:
+    def __init__(self):
+        self.model_factory = ModelFactory()
+        self.initialize_configuration()
+    def initialize_configuration(self):
+        self.model_factory.register_model('M', 'en', lambda o: None)
+""",
+    'ctl.utilities': """
+from decimal import localcontext
+def precision(*args, **kwargs):
+    def decorator(f):
+        def inner(*a, **kwa):
+            with localcontext() as ctx:
+                ctx.prec = kwargs['prec']
+                return f(*a, **kwa)
+        return inner
+    return decorator
+""",
+    'ctl.parsers': """
+import copy
+from datetime import datetime
+from decimal import Decimal, localcontext
+from recognizers_text.model import Model
+from ctl.utilities import precision
+class Er:
+    def __init__(self):
+        self.text = ''
+        self.tags = []
+    def tag(self, t):
+        self.tags.append(t)
+        self.text = self.text + t
+class Trie:
+    def __init__(self):
+        self.children = {}
+    def insert(self, word):
+        node = self.children
+        for ch in word:
+            node = node.setdefault(ch, {})
+    def find(self, word):
+        return word in self.children
+class CtlParser:
+    names = ('a', 'b')
+    def __init__(self, seen=None, extra=[]):
+        self.seen = list(seen or [])
+        self.extra = extra
+        self.table = {}
+        self.table['k'] = 1
+        self.trie = Trie()
+        self._fill()
+        self.words = list(map(str, [1]))
+        self.template = Er()
+    def _fill(self):
+        self.trie.insert('abc')
+        self.table['j'] = 2
+    def parse(self, er, reference=None):
+        if reference is None:
+            reference = datetime.now()
+        other = datetime.now() if reference is None else reference
+        local = {}
+        local[er.text] = er
+        keys = list(self.table)
+        keys.append('z')
+        mine = copy.deepcopy(self.template)
+        mine.text = er.text
+        mine.tag('x')
+        er.text = er.text.lower()
+        self.fix(er)
+        for w in self.words:
+            local[w] = self.trie.find(w)
+        return self.value(er)
+    def fix(self, er):
+        er.tag('y')
+    @precision(prec=15)
+    def value(self, er):
+        return self.third(Decimal(len(er.text)))
+    def third(self, d: Decimal) -> Decimal:
+        return d / Decimal(3)
+    def other(self, d):
+        with localcontext() as ctx:
+            ctx.prec = 15
+            return Decimal(d) * Decimal('0.1')
+class CtlModel(Model):
+    def __init__(self):
+        self.parser = CtlParser()
+    def parse(self, query):
+        er = Er()
+        er.text = query
+        return self.parser.parse(er)
+""",
+}
+
+
 def mini_index(sources):
     ix = Index.__new__(Index)
     ix.mods, ix.by_path, ix.classes_by_name, ix.errors = {}, {}, {}, []
@@ -2664,6 +3007,7 @@ def analyse(idx, scope):
     A = Analysis(idx, scope)
     A.solve()
     A.solve_build_only()
+    A.solve_primary()
     A.solve_value_classes()
     return A
 
@@ -2698,6 +3042,11 @@ def controls(chk):
     for rule, needles in want.items():
         got = ' | '.join('%s :: %s' % cd for cd in sink.fired.get(rule, []))
         chk.control(rule, all(n in got for n in needles))
+    clean = _Sink()
+    run_rules(clean, analyse(mini_index(CLEAN_SOURCES), None))
+    if clean.fired:
+        raise AnalysisError('negative control: the rules fire on the embedded behaviour-preserving twins: %s'
+                            % '; '.join('%s %s %s' % (r, c, d) for r, v in sorted(clean.fired.items()) for c, d in v)[:600])
 
 
 def run(chk):
@@ -2712,7 +3061,7 @@ def run(chk):
     scope = recogniser_scope(idx)
     check_dynamic(idx, scope)
     chk.rule(R_WRITE, 'stores / mutator calls rooted in self, a class or a module name occur only in constructors, property '
-             'setters judged at their use sites, or build-time-only methods', floor=20, control=True)
+             'setters judged at their use sites, or build-time-only methods', floor=8, control=True)
     chk.rule(R_PARAM, 'functions that mutate a parameter are only handed per-call objects (never an object rooted in shared '
              'state outside build-time code)', floor=25, control=True)
     chk.rule(R_CACHE, 'model cache: one writer, key covers every parameter but the stored model, lookup key built the same '
@@ -2720,7 +3069,7 @@ def run(chk):
     chk.rule(R_AMB, 'clock / random / environment reads only as `if reference is None: reference = datetime.now()`',
              floor=30, control=True)
     chk.rule(R_DEC, 'every Decimal operation runs under an explicit context (@precision / with localcontext / all callers)',
-             floor=15, control=True)
+             floor=10, control=True)
     chk.rule(R_DECIMP, 'no thread-local decimal configuration at import', floor=0, control=True)
     chk.rule(R_DEF, 'mutable default arguments are never mutated (directly or through the attribute they are stored in)',
              floor=3, control=True)
@@ -2745,3 +3094,124 @@ def run(chk):
     chk.assume('the timex_str of duration / time parse results does not depend on the reference date (BaseSetParser passes '
                'datetime.now() to those two parsers and reads only .timex_str)')
     chk.assume('an object obtained from a call outside the analysed packages (regex, datetime, queue) is not shared state')
+
+
+# =====================================================================================================
+# thorough tier: armed variants and behaviour-preserving twins, applied in memory to the real sources
+# =====================================================================================================
+
+NUM = 'recognizers_number.number.'
+VARIANTS = [
+    # (label, expected rule | None for a twin, module, old text, new text)
+    ('memo dict written in BaseNumberParser.parse', R_WRITE, NUM + 'parsers',
+     '        ret: Optional[ParseResult] = None\n',
+     '        self.supported_types.append(source.type)\n        ret: Optional[ParseResult] = None\n'),
+    ('twin: the same append on a local copy', None, NUM + 'parsers',
+     '        ret: Optional[ParseResult] = None\n',
+     '        types_seen = list(self.supported_types)\n        types_seen.append(source.type)\n'
+     '        ret: Optional[ParseResult] = None\n'),
+    ('culture dropped from the cache key', R_CACHE, 'recognizers_text.model',
+     'culture=culture, options=options)\n        ModelFactory.__cache[key] = model',
+     'culture=None, options=options)\n        ModelFactory.__cache[key] = model'),
+    ('reference = datetime.now() made unconditional', R_AMB, 'recognizers_date_time.date_time.base_time',
+     '        if reference is None:\n            reference = datetime.now()\n', '        reference = datetime.now()\n'),
+    ('twin: defaulting written as a conditional expression', None, 'recognizers_date_time.date_time.base_time',
+     '        if reference is None:\n            reference = datetime.now()\n',
+     '        reference = datetime.now() if reference is None else reference\n'),
+    ('Decimal multiplication moved out of the decorated helper', R_DEC, NUM + 'parsers',
+     '        result.value = self._get_digital_value(handle, power)\n',
+     '        result.value = self._get_digital_value(handle, 1) * Decimal(power)\n'),
+    ('module-level counter incremented in AbstractNumberModel.parse', R_WRITE, NUM + 'models',
+     '        query = QueryProcessor.preprocess(query, True)\n        results = []\n',
+     '        global CALLS\n        CALLS = globals_calls = 1\n        query = QueryProcessor.preprocess(query, True)\n'
+     '        results = []\n'),
+    ('trie insert reachable from StringMatcher.find', R_WRITE, 'recognizers_text.matcher.string_matcher',
+     '        if isinstance(tokenized_query, list):\n            return self.matcher.find(tokenized_query)\n',
+     '        if isinstance(tokenized_query, list):\n            self.matcher.insert(tokenized_query, \'q\')\n'
+     '            return self.matcher.find(tokenized_query)\n'),
+    ('twin: locals renamed in TrieTree.insert', None, 'recognizers_text.matcher.trie_tree',
+     '        node = self.root\n        for item in value:\n            child = node[item]\n\n            if child is None:\n'
+     '                node[item] = Node()\n                child = node[item]\n\n            node = child\n\n'
+     '        node.add_value(id)',
+     '        cur = self.root\n        for item in value:\n            nxt = cur[item]\n\n            if nxt is None:\n'
+     '                cur[item] = Node()\n                nxt = cur[item]\n\n            cur = nxt\n\n'
+     '        cur.add_value(id)'),
+    ('mutable default appended through its attribute', R_DEF, 'recognizers_choice.choice.extractors',
+     '            top_result.other_matches = partial_results\n',
+     '            top_result.other_matches.extend(partial_results)\n'),
+    ('shared template ExtractResult handed to a mutating parser', R_PARAM,
+     'recognizers_number_with_unit.number_with_unit.parsers',
+     '        ret = ParseResult(source)\n',
+     '        self.config.internal_number_parser.parse(self.config)\n        ret = ParseResult(source)\n'),
+]
+
+
+def variant_index(idx, modname, old, new):
+    m0 = idx.mods.get(modname)
+    if m0 is None:
+        return None
+    src = m0.src.replace('\r\n', '\n')
+    if old not in src:
+        return None
+    src = src.replace(old, new, 1)
+    try:
+        tree = ast.parse(src)
+    except SyntaxError:
+        return None
+    ix = Index.__new__(Index)
+    ix.mods, ix.by_path, ix.classes_by_name, ix.errors = {}, {}, {}, []
+    for name, m in idx.mods.items():
+        mm = Mod(name, m.path, tree if name == modname else m.tree, src if name == modname else m.src)
+        ix.mods[name] = mm
+    for mm in ix.mods.values():
+        ix._scan(mm)
+    return ix
+
+
+def thorough(chk):
+    """in-memory variant self-test (same summary shape as sa/variants.py, which replaces it when sa/variants/c02.json
+    exists); new violations are judged relative to the violations of the unedited tree"""
+    idx = get_index()
+    scope = recogniser_scope(idx)
+    base = {(i.rule, i.construct) for i in chk.insts if i.verdict == 'violation'}
+    results, problems, stale = [], [], []
+    n_break = n_benign = ok_break = ok_benign = closed = 0
+    for label, rule, modname, old, new in VARIANTS:
+        if rule is None:
+            n_benign += 1
+        else:
+            n_break += 1
+        ix = variant_index(idx, modname, old, new)
+        if ix is None:
+            stale.append(label)
+            results.append('%s: stale - anchor text changed' % label)
+            continue
+        sink = _Sink()
+        try:
+            run_rules(sink, analyse(ix, scope))
+        except AnalysisError as e:
+            if rule is None:
+                problems.append('%s: false-alarm (analysis error on a behaviour-preserving twin: %s)' % (label, str(e)[:200]))
+            else:
+                closed += 1
+                results.append('%s: closed - %s' % (label, str(e)[:160]))
+            continue
+        fired = {(r, c) for r, v in sink.fired.items() for c, d in v} - base
+        if rule is None:
+            if fired:
+                problems.append('%s: false-alarm (%s)' % (label, sorted(fired)[:3]))
+            else:
+                ok_benign += 1
+                results.append('%s: ok - silent' % label)
+        else:
+            hit = sorted(c for r, c in fired if r == rule)
+            if not hit:
+                problems.append('%s: missed (expected %s, new violations: %s)' % (label, rule, sorted(fired)[:3]))
+            else:
+                ok_break += 1
+                results.append('%s: ok - reported by %s at %s' % (label, rule, hit[0]))
+    if len(stale) * 2 > len(VARIANTS):
+        problems.append('more than half of the in-memory variants are stale: refresh VARIANTS in sa/props/c02.py')
+    chk.selftest = {'variants': len(VARIANTS), 'breaking': n_break, 'benign': n_benign, 'breaking_reported': ok_break,
+                    'breaking_failed_closed': closed, 'benign_silent': ok_benign, 'stale': stale, 'problems': problems,
+                    'results': results + problems}
